@@ -137,6 +137,10 @@ func Files() []File {
 	ext.Msgs = append(ext.Msgs, M{Name: "Plain", Fields: []F{{Name: "p", Num: 1, Kind: "int32", Card: "opt"}},
 		Nested: []M{{Name: "Deep", Fields: []F{{Name: "q", Num: 1, Kind: "int32", Card: "opt"}},
 			Exts: []X{{Extendee: "Base", F: F{Name: "e3_int32", Num: 170, Kind: "int32", Card: "opt"}}}}}})
+	// ... with explicit defaults (an unset extension reads as its default; it is not present for that)
+	ext.Msgs = append(ext.Msgs, M{Name: "Decl3", Fields: []F{{Name: "d", Num: 1, Kind: "int32", Card: "opt"}}, Exts: []X{
+		{Extendee: "Base", F: F{Name: "e4_int32", Num: 180, Kind: "int32", Card: "opt", Default: "42"}},
+		{Extendee: "Base", F: F{Name: "e4_string", Num: 181, Kind: "string", Card: "opt", Default: "dflt"}}}})
 	ext.Exts = []X{{Extendee: "Base", F: F{Name: "f_int64", Num: 160, Kind: "int64", Card: "opt"}},
 		{Extendee: "Base", F: F{Name: "f_msg", Num: 161, Kind: "message", Card: "opt", Type: "Leaf"}}}
 	files = append(files, ext)
